@@ -250,7 +250,7 @@ def run_search(b, sim, seed, tier, budget_s, mode='search', nworkers=None, count
             extra.update(extra_env)
         return spawn(binary, sim, extra, os.path.join(wd, 'err.%d.%d' % (w, gen)))
 
-    live = {w: (0, start(w, 0, 0)) for w in range(nworkers)}
+    live = {w: (0, start(w, 0, int(os.environ.get('VERIF_FROM_IDX') or 0))) for w in range(nworkers)}
     files = [(w, 0) for w in range(nworkers)]
     crashes = []
     while live:
@@ -870,7 +870,9 @@ def main(argv):
                 if os.environ.get('VERIF_KEEP'):
                     print('   replay:', write_replay('DBG', a.sim, v['sig'], v.get('detail', ''), v['scenario'], v.get('trace'), seed, env={'VERIF_ORACLES': a.oracles} if a.oracles else None))
             for c in crashes[:3]:
-                print('CRASH', c['last'], c['rc'], c['stderr'][-3000:])
+                err = c['stderr']
+                at = max(err.find('panic:'), err.find('fatal error:'))
+                print('CRASH', c['last'], c['rc'], err[at:at + 3000] if at >= 0 else err[-3000:])
             return 1 if viols or crashes else 0
         ap.print_help()
         return 2
